@@ -277,3 +277,10 @@ package stanza
 //@   ensures[C13] perr != nil ==> result1 == perr && !read
 //@   ensures[C13] perr == nil && parsed.Type != "error" ==> result1 == nil && !read
 //@   ensures[C13] perr == nil && parsed.Type == "error" ==> read && result1 != nil
+
+// C13: comparison of stanza errors: a target that is not a stanza error never
+// matches; otherwise every field the target sets (type, condition) must agree,
+// unset fields are wildcards.
+//@ func (Error).Is
+//@   ensures[C13] typeof(target) != Error ==> !result
+//@   ensures[C13] typeof(target) == Error ==> (result <==> (target.(Error).Type == "" || target.(Error).Type == se.Type) && (target.(Error).Condition == "" || target.(Error).Condition == se.Condition))
